@@ -60,7 +60,8 @@ MC = {
                 mutants=[("keepFailedWriters", "FailedDetached|InServiceHoldAcked")]),
     "C09": dict(quick=[cfgd(MaxW=1, Ops={"sigfail", "createfail"})],
                 thorough=[cfgd(MaxW=2, Ops={"sigfail", "createfail", "rebuilding"}),
-                          cfgd(RF=3, Addr=addrs(4), MaxW=1, Ops={"sigfail"})],
+                          cfgd(RF=3, Addr=addrs(4), MaxW=1, Ops={"sigfail"}),
+                          cfgd(MaxW=1, Ops={"sigfail", "createfail", "clonefail"})],   # a start that meets a failed clone
                 mutants=[("electRegistrant", "SignalsMax")]),
     "C13": dict(quick=[cfgd(RF=1, Addr=addrs(2), MaxW=1, MaxSnap=1, Ops={"snapshot", "snapfail", "cpfail", "revert"})],
                 thorough=[cfgd(RF=1, Addr=addrs(2), MaxW=1, MaxSnap=2, Ops={"snapshot", "snapfail", "cpfail"}),
@@ -77,7 +78,8 @@ PROFILE = {"C02": "mixed", "C03": "membership", "C04": "mixed", "C05": "mixed", 
            "C13": "snapshot", "C18": "membership",
            "C07": "rebuildrace",    # embedded in the cluster family's C07 check (controller side of a rebuild)
            "C01": "oob",            # embedded in the replica family's C01 check (the controller's range check)
-           "C16": "ctlresize"}      # embedded in the replica family's C16 check (the controller's grow)
+           "C16": "ctlresize",      # embedded in the replica family's C16 check (the controller's grow)
+           "C19": "clonestart"}     # embedded in the cluster family's C19 check (what the controller does with each clone status)
 
 IO_EVS = {"Write", "Sync", "Unmap", "Read"}
 MEMBER_RULES = {"Replicas", "NoDup", "ListsAgree", "ReadersAreRW", "WritersAreNonErr", "RWCount", "CountMatches",
@@ -341,7 +343,7 @@ def event_to_op(e):
         a = {k: v for k, v in a.items() if k != "rev"}
     if "a" in a:
         op["a"] = a["a"]
-    for k in ("sf", "af", "cf", "name", "mode", "src", "rev"):
+    for k in ("sf", "af", "cf", "name", "mode", "src", "rev", "cs"):
         if k in a and a[k]:
             op[k] = a[k]
     if ev in IO_EVS and a.get("oob"):
@@ -455,6 +457,10 @@ def run(prop, tier, seed, replay=None, embed=False):
                 nproc, per = (12, 1) if quick else (24, 8)
                 if prop in ("C01", "C16"):
                     nproc, per = (6, 1) if quick else (12, 6)
+                if prop == "C19":
+                    # the clone fixture: one hand-written execution per clone status (no generator)
+                    directed = [l for l in open(os.path.join(VERIF, "scenarios", "controller_clone.ndjson")).read().split("\n") if l.strip()]
+                    nproc, per = len(directed), 0
             for i in range(nproc):
                 pdir = os.path.join(work, "p%d" % i)
                 os.makedirs(pdir)
@@ -463,14 +469,16 @@ def run(prop, tier, seed, replay=None, embed=False):
                 rf = [1, 2, 2, 3, 2, 3, 2, 3][i % 8] if quick else [1, 2, 3, 2, 3, 4, 5, 3][i % 8]
                 if embed:
                     rf = [3, 3, 2, 3][i % 4] if prop == "C07" else ([2, 3, 3][i % 3] if prop == "C16" else [1, 2, 3][i % 3])
+                if embed and prop == "C19":
+                    rf = 1
                 cmd = [os.path.join(BUILD, "ctrldrv"), "-out", out, "-work", pdir, "-gen", str(per),
                        "-len", str(length), "-seed", str(seed * 1000 + i), "-base", str(i * 1000),
                        "-profile", os.environ.get("VERIF_DEV_PROFILE") or PROFILE[prop], "-rf", str(rf),
                        # embedded parts get their own loopback subnets (127.(10+worker).x)
-                       "-worker", str(i + 1 + ({"C01": 40, "C07": 60, "C16": 90}.get(prop, 0) if embed else 0)
+                       "-worker", str(i + 1 + ({"C01": 40, "C07": 60, "C16": 90, "C19": 130}.get(prop, 0) if embed else 0)
                                       + int(os.environ.get("VERIF_WORKER_OFFSET", "0")))]
                 extra = []
-                if not embed:      # hand-written / counterexample-derived interleavings, spread over the workers
+                if not embed or prop == "C19":   # hand-written / counterexample-derived interleavings, spread over the workers
                     extra += [l for k, l in enumerate(directed) if k % nproc == i]
                 if i in walk_files:           # random walks of MCController
                     extra += [l for l in open(walk_files[i]).read().split("\n") if l.strip()]
@@ -522,6 +530,9 @@ def run(prop, tier, seed, replay=None, embed=False):
             f_["after_rebuild"] = any(e["ev"] == "VerifyRebuild" and e["res"] == "ok" and e["seq"] < f_["seq"]
                                       for e in by_t[f_["t"]])
             props = attribute(f_)
+            if embed and prop == "C19":
+                # every execution of the clone fixture is about what the controller does with a clone status
+                props.add("C19")
             sig = dict(rule=sorted(f_["rules"]), site=f_["ev"], context=context_of(f_))
             x = explain_stale_rmw(by_t[f_["t"]], f_)
             if x:
